@@ -11,7 +11,10 @@ use crate::tools::error::Result;
 use std::collections::{BTreeMap, BTreeSet, HashMap, VecDeque};
 use std::rc::Rc;
 use std::time::Duration;
+#[cfg(not(feature = "verif"))]
 use std::time::Instant;
+#[cfg(feature = "verif")]
+use crate::verif::Instant;
 use std::time::SystemTime;
 
 /// Configuration of the FLUTE Receiver
